@@ -85,6 +85,21 @@ def main(tier, seed):
                 chk.violation('convergence:diagnostics:watched-files', 'obligation', desc, dict(v['cex'], scenario='didOpen A + didChangeWatchedFiles(other file) in one write'), confirmed=True)
             else:
                 chk.inconclusive.append('obligation L6 violated but the missing diagnostics did not reproduce natively in 3 attempts (timing dependent): ' + desc[:400])
+        ofound = [(fn, v) for fn, v in cfound if fn == 'on_did_open']
+        cfound = [(fn, v) for fn, v in cfound if fn != 'on_did_open']
+        if ofound:
+            binary = lsp_replay.build_binary()
+            obs = None
+            for attempt in range(3):
+                obs = lsp_replay.open_two_scenario(binary)
+                if not obs['last_a']:
+                    break
+            fn, v = ofound[0]
+            desc = '%s; real binary: didOpen of document A (4000 functions + one syntax error) and didOpen of document B in one write -> the last diagnostics published for A: %s' % (v['why'][0][:400], obs['last_a'])
+            if not obs['last_a']:
+                chk.violation('convergence:diagnostics:did-open', 'obligation', desc, dict(v['cex'], scenario='didOpen A + didOpen B in one write'), confirmed=True)
+            else:
+                chk.inconclusive.append('obligation L6 violated but the missing diagnostics did not reproduce natively in 3 attempts (timing dependent): ' + desc[:400])
         if cfound:
             binary = lsp_replay.build_binary()
             obs = None
